@@ -612,24 +612,28 @@ class T:
         a = self.block(list(s.body) + rest, tail)
         return "(if %s then\n%s\nelse\n%s)" % (c, a, b)
       va, vb = assigned_vars(s.body), assigned_vars(s.orelse)
-      # variables live before the branch, or defined by BOTH branches; anything else is local
-      # to its branch (a later use then fails closed with "unknown name").
-      vs = [v for v in assigned_vars(list(s.body) + list(s.orelse))
-            if self.vname(v) in self.env or (v in va and v in vb)]
-      fresh = [v for v in vs if self.vname(v) not in self.env]
-      tup = self.tuple_of(vs)
+      # dry run of both branches to learn the types of variables they define
       saved = dict(self.env)
-      a = self.block(s.body, lambda: tup)
+      self.block(s.body, lambda: "DRY")
       env_a = dict(self.env)
       self.env = dict(saved)
-      b = self.block(s.orelse, lambda: tup)
+      self.block(s.orelse, lambda: "DRY")
       env_b = dict(self.env)
+      self.env = dict(saved)
+      # state of the `if`: variables live before it, or defined (with one type) by BOTH branches;
+      # anything else is local to its branch (a later use then fails closed with "unknown name").
+      fresh = [v for v in va if v in vb and self.vname(v) not in saved and
+               env_a.get(self.vname(v)) is not None and
+               env_a.get(self.vname(v)) == env_b.get(self.vname(v))]
+      vs = [v for v in assigned_vars(list(s.body) + list(s.orelse))
+            if self.vname(v) in saved or v in fresh]
+      tup = self.tuple_of(vs)
+      a = self.block(s.body, lambda: tup)
+      self.env = dict(saved)
+      b = self.block(s.orelse, lambda: tup)
       self.env = saved
       for v in fresh:
-        ta, tb = env_a.get(self.vname(v)), env_b.get(self.vname(v))
-        if ta is None or ta != tb:
-          raise TranslationError("variable %s gets different types in the two branches" % v)
-        self.env[self.vname(v)] = ta
+        self.env[self.vname(v)] = env_a[self.vname(v)]
       return "(let %s := (if %s then\n%s\nelse\n%s) in\n%s)" % (
           self.pat_of(vs), c, a, b, self.block(rest, tail))
     if isinstance(s, ast.For):
